@@ -223,7 +223,7 @@ func c20RoundTrip(t *testing.T, rec *ev.Rec, round int, queries []c20Query) {
 	case 2:
 		cfg, feature = cdpCfg{priceMoves: true, bids: true, unsafeBias: true, maxGap: 3 * time.Hour, gen2Only: true}, "vaults+gen2-liquidation+dutch-bids"
 	default:
-		cfg, feature = cdpCfg{priceMoves: true, bids: true, lockers: true, liquidateMsg: true, limitBids: true, unsafeBias: true, maxGap: 3 * time.Hour}, "everything"
+		cfg, feature = cdpCfg{priceMoves: true, bids: true, lockers: true, liquidateMsg: true, limitBids: true, unsafeBias: true, reserve: true, maxGap: 3 * time.Hour}, "everything"
 	}
 	rec.Count("rounds:"+feature, 1)
 	r := newCdpRunner(u, rnd, rec, cfg)
